@@ -37,6 +37,22 @@ Theorem C01_assignment_code_follows_pythons_rule : forall leafval prim nameval s
   exec leafval prim nameval (length (compile_stmt s)) (compile_stmt s) [] [] = Some ([], run_stmt leafval prim nameval s).
 Proof. intros. apply stmt_correct. Qed.
 
+(* calls with any number of positional and keyword arguments, and tuple/list/set displays of any length: the
+   operands (callable, arguments, keyword values -- keyword names are constants without events) are evaluated
+   once each, in the order written, then the primitive is applied to all of them *)
+Theorem C01_nary_form_code_follows_pythons_rule : forall leafval prim nameval tag os rest stk log fuel,
+  exec leafval prim nameval (length (compile_nary tag os) + fuel) (compile_nary tag os ++ rest) stk log =
+  exec leafval prim nameval fuel rest (fst (eval_nary leafval prim tag os) :: stk) (log ++ snd (eval_nary leafval prim tag os)).
+Proof. intros. apply compile_nary_correct. Qed.
+
+Example C01_nary_example :
+  let leafval := fun i => Z.of_nat i in
+  let prim := fun (t : nat) (a : list Z) => Z.of_nat (length a) in
+  snd (eval_nary leafval prim 602 [OExpr (Leaf 1); OExpr (Leaf 2); OConst 9001; OExpr (Leaf 3); OConst 9002; OExpr (Prim2 23 (Leaf 4) (Leaf 5))])
+    = [ELeaf 1; ELeaf 2; ELeaf 3; ELeaf 4; ELeaf 5; EPrim 23 [4; 5]%Z; EPrim 602 [1; 2; 9001; 3; 9002; 2]%Z] /\
+  compile_nary 602 [OExpr (Leaf 1); OExpr (Leaf 2); OConst 9001; OExpr (Leaf 3)] = [ILeaf 1; ILeaf 2; IConst 9001; ILeaf 3; IPrim 602 4].
+Proof. vm_compute. split; reflexivity. Qed.
+
 (* non-vacuity: t(1) < t(2) <= t(3) with the first comparison false stops after t(2);
    t(1)[t(2)] += t(3) evaluates t(1), t(2) once, then t(3) *)
 Example C01_examples :
@@ -53,3 +69,4 @@ Print Assumptions C01_expression_code_follows_pythons_rule.
 Print Assumptions C01_whole_expression.
 Print Assumptions C01_each_operand_once_in_order.
 Print Assumptions C01_assignment_code_follows_pythons_rule.
+Print Assumptions C01_nary_form_code_follows_pythons_rule.
